@@ -15,7 +15,7 @@ ID = 'C03'
 LEVEL = 'exploration'
 WORKERS = {'quick': 6, 'thorough': 14}
 BUDGET_S = {'quick': 45, 'thorough': 360}
-REQUIRED_COUNTERS = ['entries_compared', 'nan_entries_expected', 'layout_entries', 'cases_with_constant_columns']
+REQUIRED_COUNTERS = ['entries_compared', 'nan_entries_expected', 'layout_entries', 'cases_with_constant_columns', 'large_trace_count_cases', 'data_layout:F', 'data_layout:strided']
 RULE = ('a case = (cpa | cpa_alt | dpa, precision, regime E (integer-valued, every sum and every product formed in compute exactly '
         'representable) or R (float traces, offsets 0/50/1000), n in 2..3000, samples 1..12, word shape () .. (3,2), trace dtype, data '
         'dtype, degenerate structure: constant samples / constant words / all-0 or all-1 bits / none, one update or several batches); '
@@ -35,6 +35,12 @@ def cases(tier, seed):
                         continue
                     out.append(dict(gen='stat', subject=name, precision=prec, regime=regime, degen=degen, sub=core.subseed('C03', seed, k), must=True))
                     k += 1
+    # large trace counts (counters and products of counts beyond 2^32), exact accumulators
+    bigs = [('dpa', 'float64', 140000), ('dpa', 'float32', 140000), ('cpa', 'float64', 140000), ('cpa_alt', 'float64', 70000)]
+    if tier != 'quick':
+        bigs += [('dpa', 'float64', 300000), ('cpa', 'float32', 200000), ('cpa_alt', 'float32', 140000), ('dpa', 'float32', 70000), ('cpa', 'float64', 300000)]
+    for name, prec, n in bigs:
+        out.append(dict(gen='stat', subject=name, precision=prec, regime='E', degen='none', big=n, sub=core.subseed('C03big', seed, name, prec, n), must=True))
     rs = np.random.default_rng(core.subseed('C03r', seed))
     n_rand = 4000 if tier == 'quick' else 60000
     for j in range(n_rand):
@@ -52,6 +58,11 @@ def run_case(case):
     n = int(rng.choice([2, 3, 4, 7, 16, 50, 130, 400, 1000, 3000]))
     T = int(rng.integers(1, 13))
     ws = gen.WORD_SHAPES[int(rng.integers(len(gen.WORD_SHAPES)))]
+    big = case.get('big')
+    if big:
+        n, T = int(big), 2
+        ws = [(2,), (2, 2), ()][int(rng.integers(3))]
+        t.count('large_trace_count_cases')
     W = gen.word_count(ws)
     L = gen.LIMIT[prec] - 1
     if name == 'dpa':
@@ -59,7 +70,7 @@ def run_case(case):
     else:
         ymax = int(rng.choice([1, 4, 8, 255]))
         if regime == 'E':
-            ymax = max(1, min(ymax, math.isqrt(L // (n * n))))
+            ymax = max(1, min(ymax, math.isqrt(L // (n * n)))) if not big else max(1, min(3, math.isqrt(L // n)))
         ddt = ['uint8', 'uint16', 'int16', 'uint32', 'int64', 'float32', 'float64'][int(rng.integers(7))]
     data = rng.integers(0, ymax + 1, gen.data_shape(n, ws))
     if name != 'dpa' and rng.random() < 0.3 and np.dtype(ddt).kind in 'if':
@@ -67,7 +78,10 @@ def run_case(case):
     tdtype = gen.TRACE_DTYPES[int(rng.integers(len(gen.TRACE_DTYPES)))]
     if regime == 'E':
         X = gen.exact_bound(n, prec, ymax=max(1, int(np.abs(data).max())), mode='full')
-        if X == 0:
+        if big:
+            # exact accumulators only (mode 'acc'): compute() then performs O(1) roundings on exact sums
+            X = max(1, min(5, gen.exact_bound(n, prec, ymax=max(1, int(np.abs(data).max())), mode='acc')))
+        elif X == 0:
             X = 1
             n = min(n, math.isqrt(L))
             data = data[:n]
@@ -84,13 +98,16 @@ def run_case(case):
     if degen in ('const_word', 'both'):
         w = int(rng.integers(W))
         d2[:, w] = d2[0, w] if name != 'dpa' else int(rng.integers(2))
-    data = d2.reshape(data.shape).astype(ddt)
+    data = gen.layout_nd(rng, d2.reshape(data.shape).astype(ddt))
+    t.count('data_layout:' + ('C' if data.flags.c_contiguous else 'F' if data.flags.f_contiguous else 'strided'))
     traces = gen.layout(rng, traces)
     if degen != 'none':
         t.count('cases_with_constant_columns')
     spec = dict(name=name, precision=prec)
     obj = subjects.make(spec)
     sizes = [n] if rng.random() < 0.5 else gen.split_sizes(rng, n)
+    if big:
+        sizes = [20000] * (n // 20000) + ([n % 20000] if n % 20000 else [])
     pos = 0
     for s in sizes:
         obj.update(traces[pos:pos + s], data[pos:pos + s])
@@ -110,14 +127,17 @@ def run_case(case):
     eps = tol.eps_of(prec)
     natural = 1.0 if name != 'dpa' else float(np.max(np.abs(x.astype(float)))) + 1e-30
     if regime == 'E':
-        tl = tol.C_E * eps * scale
+        tl = tol.C_E * eps * scale * (4 if big else 1)
         thr = tol.UNDECIDABLE_E
     else:
         tl = tol.C_R * n * eps * scale
         thr = tol.UNDECIDABLE_R
     decid = ~undef & (tl <= thr * np.maximum(np.abs(val), natural))
     t.count('entries_undecidable_by_rounding', int((~undef & ~decid).sum()))
-    if regime == 'E':
+    if regime == 'E' and big:
+        t.count('nan_entries_expected', 0)
+        decid &= np.isfinite(got2) | ~undef
+    elif regime == 'E':
         # undefined statistic -> NaN, never inf / finite; defined and decidable -> finite and close
         t.count('nan_entries_expected', int(undef.sum()))
         bad = undef & ~np.isnan(got2)
